@@ -22,6 +22,7 @@ RULE = (
     "sets (3 same-beat modes x (join off | join on x 3x3 orphan policies)) plus the count functions. Non-trivial "
     "when the stream holds a head or a tail or two notes on one beat."
     ' Round 5: chains of overlapping holds of 300-700 notes (some hold always open).'
+    ' Round 6: include_note_types as a plain set, NoteData input in the compact layout.'
 )
 EXHAUSTIVE_PART = "every stream on 2 columns x 3 rows (quick) / 2 x 4 rows and 3 columns x 3 rows (thorough) over {empty, tap, hold head, tail, mine} x all 30 option sets"
 ASSUMPTIONS = ["vmon/ref/grouping.py states the documented rules"]
